@@ -1198,9 +1198,29 @@ def oracle_barrier(c, obs):
 def gen_preempt(rng):
     cap = rng.randint(1, 4)
     ops, nid = [], 0
+    few = rng.random() < 0.5            # few distinct (amount, priority) classes: queues of equals build up and drain partly
+    if rng.random() < 0.35:
+        # churn: a queue of equal requests builds up behind a holder, is drained partly in order, and new equal
+        # requests keep arriving while older ones are still queued
+        cap = rng.choice([1, 1, 2])
+        nxt = 0
+        for _ in range(rng.randint(3, 5)):
+            ops.append(["acq", 1, rng.choice([1, 1, 1, 2]), False])
+            nid += 1
+        for _ in range(rng.randint(3, 12)):
+            if rng.random() < 0.55 and nxt < nid:
+                ops.append(["rel", nxt])
+                nxt += 1
+            else:
+                ops.append(["acq", 1, rng.choice([1, 1, 1, 2]), False])
+                nid += 1
+        return dict(kind="preemptible", cap=cap, ops=ops)
     for _ in range(rng.randint(1, 24)):
         if rng.random() < 0.6 or nid == 0:
-            ops.append(["acq", rng.randint(1, cap), rng.randint(0, 4), rng.random() < 0.6])
+            if few:
+                ops.append(["acq", rng.choice([1, cap]), rng.choice([1, 1, 2]), rng.random() < 0.2])
+            else:
+                ops.append(["acq", rng.randint(1, cap), rng.randint(0, 4), rng.random() < 0.6])
             nid += 1
         else:
             ops.append(["rel", rng.randrange(nid)])
@@ -1229,6 +1249,25 @@ def impl_preempt(c):
 def oracle_preempt(c, obs):
     cap = c["cap"]
     prev = set()
+    # arrival order among equals: acquires of the same priority and the same amount are granted in the order made
+    acqs = [(o[1], o[2]) for o in c["ops"] if o[0] == "acq"]        # (amount, priority) by acquire index
+    nopre = [not o[3] for o in c["ops"] if o[0] == "acq"]           # (a preempting request may get in by evicting holders)
+    seen_acq, granted_before = 0, set()
+    for k, (o, s) in enumerate(zip(c["ops"], obs)):
+        if o[0] == "acq":
+            seen_acq += 1
+        new = set(s["granted"]) - granted_before
+        for i in new:
+            for j in range(i):
+                if nopre[i] and j < seen_acq and j not in s["granted"] and acqs[j] == acqs[i]:
+                    # granted by its own acquire() call (immediate path) or later, out of the wait queue?
+                    immediate = o[0] == "acq" and i == seen_acq - 1
+                    return [dict(clause="waiters of equal priority and amount are granted in arrival order", step=k, granted=i, still_waiting=j,
+                                 request=acqs[i], mechanism="immediate-grant-overtakes-queue" if immediate else "queue-served-out-of-order",
+                                 what=("PreemptibleResource.acquire grants a request immediately while an equal, earlier request is still queued "
+                                       "(the queue is blocked behind a head waiter that does not fit; the immediate path does not look at the queue)")
+                                 if immediate else "the wait queue served a later request before an equal earlier one")]
+        granted_before = set(s["granted"])
     for k, s in enumerate(obs):
         if not 0 <= s["avail"] <= cap or s["avail"] + s["held"] != cap:
             return [dict(clause="held plus available equals capacity", step=k, avail=s["avail"], held=s["held"])]
@@ -1393,7 +1432,8 @@ DIRECT_KINDS = {
                         oracle_resource, attribute_resource, lambda c, o: any(s["code"] == 4 and s["resolved"] for s in o)),
     "limiter": (gen_limiter, impl_limiter, lambda c, o: "CaseLimiter " + encode_limiter(c, o), oracle_limiter, None,
                 lambda c, o: any(x[0] == 0 for x in o)),
-    "preemptible": (gen_preempt, impl_preempt, lambda c, o: "CaseOracleOnly", oracle_preempt, None,
+    "preemptible": (gen_preempt, impl_preempt, lambda c, o: "CaseOracleOnly", oracle_preempt,
+                    lambda c, o, f: "C09-preemptible-overtake" if f.get("mechanism") == "immediate-grant-overtakes-queue" else None,
                     lambda c, o: any(s["preempted"] for s in o)),
 }
 # "limiter" cases carry their own 'kind' (fixed/dynamic/weighted) in 'lkind'
